@@ -499,6 +499,28 @@ def run(rep, tier):
            "acknowledged, and after a restart db_meta.cbor does not list it (the only remedy, delete_collection, destroys the acknowledged documents)",
            pers[0].where())
 
+    # removing an index: the metadata object written by cleanup_removed_index must already not name the index whose files it
+    # deletes next (the three siblings agree: unregister in the live metadata, then clean up)
+    rep.rule("R01.11", "remove_{btree,bm25,hnsw}_index take the index out of the live metadata before cleanup_removed_index persists the metadata and "
+             "deletes the index's objects: persisted the other way round, a crash between the deletion and the next flush leaves a registered index "
+             "without objects and every reopen fails with NotFound", floor=3)
+    n11 = 0
+    for nm in ("remove_btree_index", "remove_bm25_index", "remove_hnsw_index"):
+        f11 = prog.fn(anda.COLL + "::" + nm)
+        b11 = prog.async_body(f11) or f11
+        rep.saw(b11, len(b11.events))
+        cl = b11.calls_named(r"Collection::cleanup_removed_index$")
+        unreg = [e for e in b11.calls_named(r"(BTreeMap|HashMap|hash_map::HashMap)::<K, V(, [AS])*>::(remove|remove_entry|retain)$")
+                 if "metadata" in anda.recv_fields(b11, e) and any(x.endswith("_indexes") for x in anda.recv_fields(b11, e))]
+        if not cl:
+            raise CheckerFault("anchor missing: cleanup_removed_index call in %s" % nm)
+        n11 += 1
+        rep.ob("R01.11", "unregistered-before-cleanup|%s" % nm,
+               bool(unreg) and all(any(b11.dominates(u.block, c.block) and u.block != c.block for u in unreg) for c in cl),
+               "%s calls cleanup_removed_index (metadata PUT, then deletion of the index's objects) before the index is taken out of the live metadata: the "
+               "persisted metadata still names an index whose objects are gone - after a crash before the next flush Collection::open fails with NotFound "
+               "on every reopen" % nm, cl[0].where())
+
     # the object-store wrappers under the collection: a lost acknowledgement of a commit must not leave the process unable to reopen
     from . import ostore as _os
     rep.rule("R01.10", "an error of a sidecar commit point leaves no stale cache entry behind (shared with C07 R07.7): with one the collection whose commit "
